@@ -11,6 +11,7 @@ package gbn
 // roots, deadlocks by the watchdogs below.
 
 import (
+	"fmt"
 	"sync"
 	"time"
 
@@ -22,6 +23,11 @@ func init() {
 		Prop: "C18", Name: "conn-concurrent", Count: tiered(1200, 240000),
 		Run: c18Conn, MaxOps: 2 << 20, Horizon: 3 * time.Hour,
 		Doc: "GBN pair with short keepalive intervals, packet deliveries aligned to ping/pong/resend tick instants, 2-4 application tasks per endpoint calling Send, Recv, SetSendTimeout, SetRecvTimeout and finally Close concurrently",
+	})
+	simrt.Register(&simrt.Scenario{
+		Prop: "C18", Name: "dies-at-birth", Count: tiered(1500, 240000),
+		Run: c18DiesAtBirth, MaxOps: 1 << 20, Horizon: time.Hour,
+		Doc: "the first packet of the data phase (a FIN, a late handshake packet or garbage) is already waiting when the handshake completes, so that the connection's receive loop ends - and closes the connection - while the constructor is still starting the other loops; keepalive on; applications call Send/Recv/Close at once",
 	})
 	simrt.Register(&simrt.Scenario{
 		Prop: "C18", Name: "ticker-direct", Count: tiered(2000, 320000),
@@ -199,4 +205,59 @@ func c18Ticker(rc *simrt.RunCtx) {
 		close(stop)
 		rc.Violate("c18.deadlock", "ticker-users-stuck", "tasks using the ticker concurrently never finished: %v", simrt.Live())
 	}
+}
+
+// c18DiesAtBirth: the connection's own Close (from its receive loop) runs
+// concurrently with the constructor that is still starting its goroutines.
+func c18DiesAtBirth(rc *simrt.RunCtx) {
+	n := []uint8{1, 3, DefaultN}[rc.Pick(3, "knob.n")]
+	tk := tknobs{handshake: 200 * time.Millisecond, static: true, resend: 100 * time.Millisecond, ping: 50 * time.Millisecond, pong: 50 * time.Millisecond}
+	c2s := &netCfg{latMin: time.Millisecond, latMax: time.Millisecond}
+	s2c := &netCfg{latMin: time.Millisecond, latMax: time.Millisecond}
+	np := newNetPair(rc, c2s, s2c)
+	first := [][]byte{{FIN}, {SYNACK}, {SYN, n}, {0x99, 1}, {}}[rc.Pick(5, "wl.first-packet")]
+	side := rc.Pick(2, "wl.side")
+	rc.Knob("case", fmt.Sprintf("N=%d first=%s to-server=%v", n, pktString(first), side == 0))
+	// the packet is queued right behind the last handshake packet
+	if side == 0 {
+		np.c2s.filter = func(b []byte, _ time.Duration) (byte, time.Duration) {
+			if len(b) > 0 && b[0] == SYNACK {
+				go np.c2s.inject(first, 0)
+			}
+			return 0, 0
+		}
+	} else {
+		np.s2c.filter = func(b []byte, _ time.Duration) (byte, time.Duration) {
+			if len(b) > 0 && b[0] == SYN {
+				go np.s2c.inject(first, 0)
+			}
+			return 0, 0
+		}
+	}
+	opts := []Option{WithTimeoutOptions(tk.opts()...)}
+	p := startPair(rc, np, n, opts, opts)
+	p.waitBoth(10 * time.Second)
+	cli, _ := p.cli.get()
+	srv, _ := p.srv.get()
+	var wg sync.WaitGroup
+	for _, g := range []*GoBackNConn{cli, srv} {
+		if g == nil {
+			continue
+		}
+		g := g
+		wg.Add(3)
+		go func() { defer wg.Done(); g.Send(mkMsg('A', 0, 10)) }()
+		go func() { defer wg.Done(); g.SetRecvTimeout(time.Second); g.Recv() }()
+		go func() { defer wg.Done(); g.Close() }()
+	}
+	done := make(chan struct{})
+	go func() { wg.Wait(); close(done) }()
+	select {
+	case <-done:
+		rc.Progress()
+		rc.Fault("first-packet-" + pktKind(first))
+	case <-time.After(10 * time.Minute):
+		rc.Violate("c18.deadlock", "tasks-stuck-after-early-close", "application calls on a connection that closed itself at once have not returned: %v", simrt.Live())
+	}
+	p.closeAll()
 }
